@@ -116,6 +116,7 @@ func (g *Gen) note(f string, a ...any) { g.notes[fmt.Sprintf(f, a...)] = true }
 
 type FnCtx struct {
 	callPreHit map[int]bool
+	pendingHavocAll bool
 	onlyHit    map[string]bool
 	g       *Gen
 	fn      *ssa.Function
@@ -656,6 +657,13 @@ func (c *FnCtx) instrMods(in ssa.Instruction, locals map[*ssa.Alloc]bool, heaps 
 	case *ssa.Send, *ssa.Select:
 		g.heapSorts["GH_Sent"] = SBool
 		heaps["GH_Sent"] = true
+		if sel, ok := in.(*ssa.Select); ok {
+			for i := range sel.States {
+				k := fmt.Sprintf("GH_Sel%d", i)
+				g.heapSorts[k] = SBool
+				heaps[k] = true
+			}
+		}
 		g.heapSorts[ctxDoneKey] = arraySort(SInt, SBool)
 		heaps[ctxDoneKey] = true
 	case *ssa.MakeChan:
@@ -933,6 +941,16 @@ func (c *FnCtx) run() {
 	order := c.topoOrder()
 	c.in[fn.Blocks[0]] = st
 	c.reach[fn.Blocks[0]] = reach0
+	// $Sel<i> describes the selects of this activation: no case has been taken yet
+	for _, b := range fn.Blocks {
+		for _, in := range b.Instrs {
+			if sel, ok := in.(*ssa.Select); ok {
+				for i := range sel.States {
+					c.setGhost(c.in[fn.Blocks[0]], fmt.Sprintf("Sel%d", i), tFalse)
+				}
+			}
+		}
+	}
 	for _, b := range order {
 		if c.failed != "" {
 			return
@@ -1176,6 +1194,14 @@ func (c *FnCtx) enterLoop(li *loopInfo, entry *State, entryReach Term) (*State, 
 			continue // declared inside the loop: re-initialised on every iteration
 		}
 		st.locals[a] = c.freshTyped("h_"+a.Comment, a.Type().(*types.Pointer).Elem())
+		// the hidden counters go/ssa introduces for range loops start at -1 (slices, arrays) or 0
+		// (integers) and are only ever incremented by one at the loop head: a lower bound by construction
+		switch a.Comment {
+		case "rangeindex":
+			c.define(ge(st.locals[a], intLit(-1)))
+		case "rangeint.iter":
+			c.define(ge(st.locals[a], tZero))
+		}
 	}
 	// NEXT first, so that the heap versions introduced below are bounded by the loop-head NEXT
 	lf := c.computeLoopFrame(li)
